@@ -267,7 +267,40 @@ func upstream(ctx context.Context, req *dns.Msg, ri *agd.RequestInfo) (*dns.Msg,
 		resp.Answer, resp.Ns = nil, nil
 	}
 	resp.AuthenticatedData = hasLabel(n, "ux-ad")
+	if rc, ok := extRcode(n); ok {
+		// An extended RCODE (BADVERS, BADCOOKIE, ...): the upper bits travel in
+		// the OPT record, so the answer must carry one, and it goes through the
+		// wire format, as an answer received by the real forwarder does.
+		resp.Rcode = rc
+		resp.Answer, resp.Ns = nil, nil
+		if resp.IsEdns0() == nil {
+			resp.SetEdns0(1232, false)
+		}
+		b, perr := resp.Pack()
+		if perr != nil {
+			return nil, fmt.Errorf("harness: packing extended-rcode answer: %w", perr)
+		}
+		resp = &dns.Msg{}
+		if perr = resp.Unpack(b); perr != nil {
+			return nil, fmt.Errorf("harness: unpacking extended-rcode answer: %w", perr)
+		}
+	}
 	return resp, nil
+}
+
+// extRcodes are the extended response codes the scripted upstream can answer
+// with: the assigned ones (BADVERS/BADSIG 16 ... BADCOOKIE 23) and unassigned
+// ones whose low four bits equal a common RCODE.
+var extRcodes = []int{16, 17, 18, 19, 20, 21, 22, 23, 32, 35, 37}
+
+// extRcode returns the extended RCODE requested by a label "ux-rcN" of name.
+func extRcode(name string) (rc int, ok bool) {
+	for _, l := range strings.Split(strings.ToLower(name), ".") {
+		if _, err := fmt.Sscanf(l, "ux-rc%d", &rc); err == nil && rc > 15 && rc <= 0xFFF {
+			return rc, true
+		}
+	}
+	return 0, false
 }
 
 // ---------------------------------------------------------------------------
@@ -451,7 +484,13 @@ var dropACs = []string{"drop-gacc-ip", "drop-gacc-ip-anon", "drop-gacc-host", "d
 	"drop-grl-anon", "drop-prl", "drop-unknown-dedicated", "drop-port0", "drop-device-error"}
 
 var qtypes = []uint16{dns.TypeA, dns.TypeAAAA, dns.TypeTXT, dns.TypeHTTPS, dns.TypeMX}
-var uxs = []string{"", "", "ux-ad", "ux-nx", "ux-sf"}
+var uxs = func() (l []string) {
+	l = []string{"", "", "ux-ad", "ux-nx", "ux-sf", "", "", "ux-ad", "ux-nx", "ux-sf"}
+	for _, rc := range extRcodes {
+		l = append(l, fmt.Sprintf("ux-rc%d", rc))
+	}
+	return l
+}()
 
 func (w *world) clientAddr(rng *rand.Rand) netip.AddrPort {
 	port := uint16(1024 + rng.IntN(60000))
@@ -706,7 +745,7 @@ func pickRule(rng *rand.Rand, name string) string {
 
 func (c *caseSpec) message(rng *rand.Rand) *dns.Msg {
 	m := stack.NewQuery(uint16(rng.IntN(65536)), c.Name, c.QType, dns.ClassINET)
-	if c.EDNSID != "" || rng.IntN(3) == 0 {
+	if c.EDNSID != "" || rng.IntN(3) == 0 || strings.HasPrefix(c.UX, "ux-rc") {
 		m.SetEdns0(1232, rng.IntN(2) == 0)
 		if c.EDNSID != "" {
 			o := m.IsEdns0()
@@ -820,6 +859,9 @@ type judged struct {
 	c       *caseSpec
 	id      agd.RequestID
 	entries []*querylog.Entry
+	// rcode is the response code the client received (after wire packing and
+	// unpacking), -1 if it received nothing.
+	rcode int
 }
 
 func (w *world) run(c *caseSpec, rng *rand.Rand) *judged {
@@ -864,7 +906,10 @@ func (w *world) run(c *caseSpec, rng *rand.Rand) *judged {
 		}
 		return m
 	}
-	res := &judged{c: c, id: out.ID, entries: logs}
+	res := &judged{c: c, id: out.ID, entries: logs, rcode: -1}
+	if len(out.Responses) > 0 {
+		res.rcode = out.Responses[0].Rcode
+	}
 	if out.Panic != nil {
 		r.Violation("panic:serve:"+c.AC, "the stack panicked on a legal request", wit(map[string]any{"panic": fmt.Sprint(out.Panic)}))
 		return res
@@ -983,6 +1028,10 @@ func (w *world) run(c *caseSpec, rng *rand.Rand) *judged {
 		}
 		if int(e.ResponseCode) != resp.Rcode {
 			bad("rcode", resp.Rcode, e.ResponseCode)
+		}
+		if resp.Rcode > 0xF {
+			r.Bucket("p1.ext_rcode_entries_checked", 1)
+			r.Bucket(fmt.Sprintf("p1.ext_rcode.%d", resp.Rcode), 1)
 		}
 		if int(e.Protocol) != c.Proto {
 			bad("protocol", c.Proto, e.Protocol)
@@ -1378,6 +1427,13 @@ func part1Concurrent(t *testing.T, r *vkit.Run) {
 			if n, _ := obj["n"].(string); !strings.EqualFold(n, c.Name) {
 				r.Violation("e2e:field:n", "a line does not carry the name of its own request", w)
 			}
+			if rc, _ := obj["r"].(json.Number); rc.String() != fmt.Sprint(j.rcode) {
+				w["rcode_received_by_client"] = j.rcode
+				r.Violation("e2e:field:r", "a line does not carry the response code that the client received", w)
+			}
+			if j.rcode > 0xF {
+				r.Bucket("e2e.ext_rcode_lines_checked", 1)
+			}
 			if b, _ := obj["b"].(string); b != c.Prof.ID {
 				r.Violation("e2e:field:b", "a line does not carry the profile of its own request", w)
 			}
@@ -1710,6 +1766,13 @@ func TestCheck(t *testing.T) {
 	r.Require("p4.backend_incremental_syncs", 2)
 	r.Require("p3.svc-later-of-several", 60)
 	r.Require("p3.lines_checked", 400)
+	// Extended response codes (upper bits in the OPT record) must have reached
+	// clients of logged requests.
+	r.Require("p1.ext_rcode_entries_checked", 150)
+	for _, rc := range extRcodes {
+		r.Require(fmt.Sprintf("p1.ext_rcode.%d", rc), 5)
+	}
+	r.Require("e2e.ext_rcode_lines_checked", 100)
 	r.Require("e2e.lines_matched", 800)
 	r.Require("e2e.lines_attributed_to_case", 800)
 	r.Require("fs.lines_matched", int64(workers*200*3))
